@@ -75,10 +75,14 @@ static inline uint64_t verif_d2u(double v)
 #define VERIF_POINT(p, a, b, c, d) verif_hook((p), (uint64_t)(a), (uint64_t)(b), (uint64_t)(c), (uint64_t)(d))
 #define VERIF_YIELD(site) verif_hook(VP_YIELD, (uint64_t)(site), 0, 0, 0)
 #define VERIF_D(v) verif_d2u(v)
+/* lets the harness choose the (performance-only) number of events processed between two GVT polls */
+extern unsigned verif_batch(unsigned dflt);
+#define VERIF_BATCH(var) ((var) = verif_batch(var))
 
 #else
 
 #define VERIF_POINT(p, a, b, c, d) ((void)0)
 #define VERIF_YIELD(site) ((void)0)
+#define VERIF_BATCH(var) ((void)0)
 
 #endif
